@@ -165,4 +165,87 @@ theorem global_names_good :
     ([logKey, logKey ++ sPub, poisonKey, poisonKey ++ sPub, poisonSym, poisonSym ++ sPub].all
       fun f => (splitSlash f).all goodCompB) = true := by decide
 
+/-! ## the export context of the key store's own per-client names -/
+
+theorem not_hasSuffix_of_last {s suf : Bytes} {c d : UInt8} (hs : s.getLast? = some c) (hd : suf.getLast? = some d)
+    (hne : c ≠ d) : hasSuffix s suf = false := by
+  cases h : hasSuffix s suf with
+  | false => rfl
+  | true =>
+    have := hasSuffix_getLast h hd
+    rw [hs] at this
+    exact absurd (Option.some.inj this) hne
+
+theorem ne_of_slash {a b : Bytes} (ha : slash ∉ a) (hb : slash ∈ b) : a ≠ b := fun e => ha (e ▸ hb)
+
+/-- shared part: a separator-free, non-empty name `n` ending in a byte that no timestamp contains
+is classified by `ctxOfBase n` -/
+theorem ctxOfName_plain (n q : Bytes) (c : UInt8) (hn : n = q ++ [c]) (hc : tsChar c = false) (hs : slash ∉ n) :
+    ctxOfName n = ctxOfBase n := by
+  have hcs : c ≠ slash := fun e => hs (by rw [hn, e]; simp)
+  have hh : isHistorical n = false := by rw [hn]; exact not_isHistorical_of_last q c hcs hc
+  unfold ctxOfName
+  simp only [hh, Bool.false_eq_true, if_false]
+  rw [if_neg (ne_of_slash hs (by decide)), if_neg (ne_of_slash hs (by decide))]
+
+theorem valid_name_noslash {id : Bytes} (hv : validateID id = true) (suf : Bytes) (hs : slash ∉ suf) : slash ∉ id ++ suf :=
+  (goodComp_valid_append hv suf hs).2.2.2
+
+theorem valid_name_ne_nil {id : Bytes} (hv : validateID id = true) (suf : Bytes) : id ++ suf ≠ [] := by
+  intro e
+  have := congrArg List.length e
+  have hl := (validateID_len hv).1
+  simp only [List.length_append, List.length_nil] at this; omega
+
+/-- `ctxOfBase` on a separator-free name that does not end in `.old` -/
+theorem ctxOfBase_plain (n : Bytes) (hne : n ≠ []) (hs : slash ∉ n) (hold : hasSuffix n sOld = false) :
+    ctxOfBase n =
+      if hasSuffix n sHmac then CrossClient.newClientIDKeyContext pSearchHMAC (dropSuffix n sHmac)
+      else if hasSuffix n sServer then CrossClient.newClientIDKeyContext pLegacy (dropSuffix n sServer)
+      else if hasSuffix n sTranslator then CrossClient.newClientIDKeyContext pLegacy (dropSuffix n sTranslator)
+      else if hasSuffix n sStorage then CrossClient.newClientIDKeyContext pStoragePrivate (dropSuffix n sStorage)
+      else if hasSuffix n sStorageSym then CrossClient.newClientIDKeyContext pStorageSym (dropSuffix n sStorageSym)
+      else CrossClient.newKeyContext pUndefined n := by
+  unfold ctxOfBase
+  rw [base_noslash n hne hs]
+  simp only [hold, Bool.false_eq_true, if_false]
+
+/-- `Export`/`Import` derive, from the file names the key store gives a valid client's keys, the
+key context the key store itself uses for them: the client id -/
+theorem ctxOfName_client (id : Bytes) (hv : validateID id = true) :
+    ctxOfName (storageName id) = CrossClient.newClientIDKeyContext pStoragePrivate id ∧
+    ctxOfName (symName id) = CrossClient.newClientIDKeyContext pStorageSym id ∧
+    ctxOfName (hmacName id) = CrossClient.newClientIDKeyContext pSearchHMAC id := by
+  refine ⟨?_, ?_, ?_⟩
+  · have hs : slash ∉ storageName id := valid_name_noslash hv sStorage (by decide)
+    have hne : storageName id ≠ [] := valid_name_ne_nil hv sStorage
+    have hlast : (storageName id).getLast? = some 101 := by
+      simp [storageName, sStorage, ofStr, List.getLast?_append]
+    rw [ctxOfName_plain (storageName id) (id ++ ofStr "_storag") 101 (by simp [storageName, sStorage, ofStr]) (by decide) hs,
+      ctxOfBase_plain _ hne hs (not_hasSuffix_of_last hlast (d := 100) (by decide) (by decide)),
+      not_hasSuffix_of_last hlast (suf := sHmac) (d := 99) (by decide) (by decide),
+      not_hasSuffix_of_last hlast (suf := sServer) (d := 114) (by decide) (by decide),
+      not_hasSuffix_of_last hlast (suf := sTranslator) (d := 114) (by decide) (by decide)]
+    simp only [Bool.false_eq_true, if_false, storageName, hasSuffix_append, if_true, dropSuffix_append]
+  · have hname : symName id = id ++ (sStorage ++ sSym) := by simp [symName]
+    have hs : slash ∉ symName id := by rw [hname]; exact valid_name_noslash hv (sStorage ++ sSym) (by decide)
+    have hne : symName id ≠ [] := by rw [hname]; exact valid_name_ne_nil hv _
+    have hlast : (symName id).getLast? = some 109 := by
+      simp [symName, sStorage, sSym, ofStr, List.getLast?_append]
+    rw [ctxOfName_plain (symName id) (id ++ ofStr "_storage_sy") 109 (by simp [symName, sStorage, sSym, ofStr]) (by decide) hs,
+      ctxOfBase_plain _ hne hs (not_hasSuffix_of_last hlast (d := 100) (by decide) (by decide)),
+      not_hasSuffix_of_last hlast (suf := sHmac) (d := 99) (by decide) (by decide),
+      not_hasSuffix_of_last hlast (suf := sServer) (d := 114) (by decide) (by decide),
+      not_hasSuffix_of_last hlast (suf := sTranslator) (d := 114) (by decide) (by decide),
+      not_hasSuffix_of_last hlast (suf := sStorage) (d := 101) (by decide) (by decide)]
+    have h2 : sStorage ++ sSym = sStorageSym := by decide
+    simp only [Bool.false_eq_true, if_false, hname, h2, hasSuffix_append, if_true, dropSuffix_append]
+  · have hs : slash ∉ hmacName id := valid_name_noslash hv sHmac (by decide)
+    have hne : hmacName id ≠ [] := valid_name_ne_nil hv sHmac
+    have hlast : (hmacName id).getLast? = some 99 := by
+      simp [hmacName, sHmac, ofStr, List.getLast?_append]
+    rw [ctxOfName_plain (hmacName id) (id ++ ofStr "_hma") 99 (by simp [hmacName, sHmac, ofStr]) (by decide) hs,
+      ctxOfBase_plain _ hne hs (not_hasSuffix_of_last hlast (d := 100) (by decide) (by decide))]
+    simp only [hmacName, hasSuffix_append, if_true, dropSuffix_append]
+
 end AcraModel.KeystoreSec.V1
